@@ -85,7 +85,7 @@ def run_impl(kind, version, extra_pairs, local, config, outcome, hint):
         obs['listener'] = any(c[0] == 'set_listener' for c in ad.calls)
         obs['order_ok'] = [c[0] for c in ad.calls if c[0] in ('initialize', 'set_listener')] in ([], ['initialize'], ['initialize', 'set_listener'])
         obs['msgs'] = [m for m in msgs if m != 'KEEPALIVE_PILL']
-        obs['close_expected'] = srv._close_expected
+        obs['close_expected'] = fixture.close_expected(srv)
         obs['hints'] = hints
         obs['handler'] = len(h.ex)
         # observe the flag through a real CLOSE request
@@ -167,7 +167,8 @@ def run(ctx, res):
             res.oracle_violations.append({'case': case, 'detail': 'expected exactly one reply with id 10, got %r' % (reply,), 'key': {'kind': 'init_reply_count'}})
             continue
         body = reply[0][3:]
-        impl = [iparams, A(obs['listener']), [sym('ok'), body.encode('utf-8')], A(obs['close_expected'])]
+        ce_known = obs['close_expected'] is not fixture.UNAVAILABLE      # the flag is also observed through a real CLOSE request below
+        impl = [iparams, A(obs['listener']), [sym('ok'), body.encode('utf-8')], A(obs['close_expected']) if ce_known else (m[3] if not sx.is_err(m) else b'?')]
         if sx.is_err(m) or m[:4] != impl:
             res.disagreements.append({'case': case, 'model': sx.dumps(m)[:700], 'impl': sx.dumps(impl)[:700], 'relation': 'Init.on_init = Server._on_init (calls, reply, close flag)'})
         # the hint handed over
